@@ -1,6 +1,573 @@
+import Model.FrameRead
+import Model.RespSpec
+import Model.Rows
+import Model.RowDataSpec
+import Model.Compress
 import Driver.Util
 namespace Driver.C04
-/-- placeholder: replaced when the property's model is built -/
-def step (_ : Unit) (_ : List String) : Unit × String := ((), "unimplemented")
+open Util FrameRead RespSpec
+
+/-! # line protocol of C04 (see harness/cmd/c04/main.go)
+
+  resp  <fv> <logical response> <wire>    the logical response is parsed, checked well-formed, encoded
+        with the SPECIFICATION encoder (must equal <wire>), the MODEL parser runs on that encoding
+  respx / raw / rowsx                     the model runs on the given bytes (model-vs-code)
+  comp  like resp (compression is transparent: C04_compressed)
+  (the Lean models describe gocql AFTER the repairs of KF-C04-1, -2, -4, -5: against an unrepaired
+   checkout the spec-backed ops resp / rows / skip disagree on the former known-finding inputs)
+  rows  <api> <dests> <fv> <logical response> <wire>   model of the consumer API + the specification's
+        expectation of the cells (must agree)
+  skip / skipx  <fv> <PREPARED response> <wire1> ROWSRESP <ROWS response> <wire2>   executeQuery's iterator
+        with skip-metadata; skip: + the specification's expectation -/
+
+/-! ## token parser for logical responses -/
+
+abbrev TP := StateT (List String) Option
+
+def tok : TP String := fun s => match s with | [] => none | t :: r => some (t, r)
+
+def tNat : TP Nat := do
+  let t ← tok
+  match t.toNat? with
+  | some n => pure n
+  | none => failure
+
+def tInt : TP Int := do
+  let t ← tok
+  match t.toInt? with
+  | some n => pure n
+  | none => failure
+
+def tHex : TP RespSpec.Bytes := do
+  let t ← tok
+  match parseHex t with
+  | some b => pure b
+  | none => failure
+
+def tOptBytes : TP (Option RespSpec.Bytes) := do
+  let t ← tok
+  if t == "null" then pure none
+  else match parseHex t with
+    | some b => pure (some b)
+    | none => failure
+
+def tMany {α : Type} (p : TP α) : Nat → TP (List α)
+  | 0 => pure []
+  | n + 1 => do
+    let x ← p
+    let xs ← tMany p n
+    pure (x :: xs)
+
+def tCounted {α : Type} (p : TP α) : TP (List α) := do
+  let n ← tNat
+  tMany p n
+
+partial def tType : TP TypeDesc := do
+  let k ← tok
+  match k with
+  | "n" => do let id ← tNat; pure (.native id)
+  | "c" => do let c ← tHex; pure (.custom c)
+  | "l" => do let e ← tType; pure (.list e)
+  | "s" => do let e ← tType; pure (.set e)
+  | "m" => do let a ← tType; let b ← tType; pure (.map a b)
+  | "u" => do
+    let ks ← tHex; let nm ← tHex
+    let fs ← tCounted (do let n ← tHex; let t ← tType; pure (n, t))
+    pure (.udt ks nm (FieldDescs.ofList fs))
+  | "t" => do
+    let es ← tCounted tType
+    pure (.tuple (TypeDescs.ofList es))
+  | _ => failure
+
+def tPaging : TP (Option RespSpec.Bytes) := do
+  let t ← tok
+  if t == "N" then pure none
+  else if t == "Y" then do let b ← tHex; pure (some b)
+  else failure
+
+def tMeta : TP Meta := do
+  let pg ← tPaging
+  let k ← tok
+  match k with
+  | "O" => do
+    let n ← tNat; let g ← tNat
+    pure { paging := pg, cols := .omitted n (g == 1) }
+  | "G" => do
+    let ks ← tHex; let tb ← tHex
+    let cs ← tCounted (do let n ← tHex; let t ← tType; pure (n, t))
+    pure { paging := pg, cols := .global ks tb cs }
+  | "C" => do
+    let cs ← tCounted (do
+      let ks ← tHex; let tb ← tHex; let n ← tHex; let t ← tType
+      pure ({ ks := ks, table := tb, name := n, typ := t } : ColSpec))
+    pure { paging := pg, cols := .perCol cs }
+  | _ => failure
+
+def tCell : TP Cell := do
+  let k ← tok
+  match k with
+  | "null" => pure .null
+  | "b" => do let b ← tHex; pure (.bytes b)
+  | "t" => do let fs ← tCounted tOptBytes; pure (.tuple fs)
+  | _ => failure
+
+def tSchemaChange : TP SchemaChange := do
+  let k ← tok
+  let ch ← tHex
+  let ks ← tHex
+  match k with
+  | "K" => pure (.keyspace ch ks)
+  | "T" => do let n ← tHex; pure (.table ch ks n)
+  | "U" => do let n ← tHex; pure (.udt ch ks n)
+  | "F" => do let n ← tHex; let a ← tCounted tHex; pure (.function ch ks n a)
+  | "A" => do let n ← tHex; let a ← tCounted tHex; pure (.aggregate ch ks n a)
+  | _ => failure
+
+def tFailures : TP Failures := do
+  let k ← tok
+  match k with
+  | "C" => do let n ← tInt; pure (.count n)
+  | "M" => do
+    let m ← tCounted (do let a ← tHex; let c ← tNat; pure (a, c))
+    pure (.reasons m)
+  | _ => failure
+
+def tErr : TP ErrBody := do
+  let k ← tok
+  match k with
+  | "S" => do let c ← tNat; pure (.simple c)
+  | "UNAV" => do let cl ← tNat; let a ← tInt; let b ← tInt; pure (.unavailable cl a b)
+  | "WTO" => do let cl ← tNat; let a ← tInt; let b ← tInt; let w ← tHex; pure (.writeTimeout cl a b w)
+  | "RTO" => do let cl ← tNat; let a ← tInt; let b ← tInt; let d ← tNat; pure (.readTimeout cl a b d)
+  | "RF" => do let cl ← tNat; let a ← tInt; let b ← tInt; let f ← tFailures; let d ← tNat; pure (.readFailure cl a b f d)
+  | "FF" => do let ks ← tHex; let fn ← tHex; let a ← tCounted tHex; pure (.functionFailure ks fn a)
+  | "WF" => do let cl ← tNat; let a ← tInt; let b ← tInt; let f ← tFailures; let w ← tHex; pure (.writeFailure cl a b f w)
+  | "CDC" => pure .cdcWriteFailure
+  | "CAS" => do let cl ← tNat; let a ← tInt; let b ← tInt; pure (.casWriteUnknown cl a b)
+  | "AE" => do let ks ← tHex; let tb ← tHex; pure (.alreadyExists ks tb)
+  | "UNP" => do let id ← tHex; pure (.unprepared id)
+  | _ => failure
+
+def tResult : TP Result := do
+  let k ← tok
+  match k with
+  | "VOID" => pure .void
+  | "ROWS" => do
+    let m ← tMeta
+    let rows ← tCounted (tCounted tCell)
+    pure (.rows m rows)
+  | "KS" => do let ks ← tHex; pure (.setKeyspace ks)
+  | "PREP" => do
+    let id ← tHex
+    let pk ← tCounted tNat
+    let req ← tMeta
+    let t ← tok
+    if t == "N" then pure (.prepared id pk req none)
+    else if t == "M" then do let m ← tMeta; pure (.prepared id pk req (some m))
+    else failure
+  | "SC" => do let sc ← tSchemaChange; pure (.schemaChange sc)
+  | _ => failure
+
+def tBody : TP Body := do
+  let k ← tok
+  match k with
+  | "ERR" => do let msg ← tHex; let e ← tErr; pure (.error msg e)
+  | "READY" => pure .ready
+  | "AUTH" => do let c ← tHex; pure (.authenticate c)
+  | "SUP" => do
+    let o ← tCounted (do let k ← tHex; let v ← tCounted tHex; pure (k, v))
+    pure (.supported o)
+  | "RES" => do let r ← tResult; pure (.result r)
+  | "EV" => do
+    let e ← tok
+    match e with
+    | "TOPO" => do let ch ← tHex; let a ← tHex; let p ← tInt; pure (.event (.topology ch a p))
+    | "STAT" => do let ch ← tHex; let a ← tHex; let p ← tInt; pure (.event (.status ch a p))
+    | "SCH" => do let sc ← tSchemaChange; pure (.event (.schema sc))
+    | _ => failure
+  | "CHAL" => do let t ← tOptBytes; pure (.authChallenge t)
+  | "SUCC" => do let t ← tOptBytes; pure (.authSuccess t)
+  | _ => failure
+
+/-- `<v> <stream> <trace> <warnings> <payload> <beta> <body>` -/
+def tResp : TP (Nat × LResp) := do
+  let v ← tNat
+  let stream ← tInt
+  let tr ← tPaging
+  let w ← tok
+  let warnings ← (if w == "N" then pure none else if w == "W" then do let l ← tCounted tHex; pure (some l) else failure)
+  let p ← tok
+  let payload ← (if p == "N" then pure none
+    else if p == "P" then do
+      let l ← tCounted (do let k ← tHex; let x ← tOptBytes; pure (k, x))
+      pure (some l)
+    else failure)
+  let beta ← tNat
+  let body ← tBody
+  pure (v, { stream := stream, tracing := tr, warnings := warnings, payload := payload, beta := beta == 1, body := body })
+
+/-! ## canonical dumps (must match /repo/verif_export_c04.go) -/
+
+def hexO : Option FrameRead.Bytes → String
+  | none => "nil"
+  | some b => toHex b
+
+def commas (l : List String) : String := ",".intercalate l
+
+def sortStrings (l : List String) : List String := (l.toArray.qsort (· < ·)).toList
+
+def strList (l : List FrameRead.Bytes) : String := "[" ++ commas (l.map toHex) ++ "]"
+
+def dNative (n : Native) : String := toString n.typ ++ "," ++ toHex n.custom
+
+partial def dType : TypeInfo → String
+  | .native n => "N(" ++ dNative n ++ ")"
+  | .coll n key elem =>
+    "C(" ++ dNative n ++ "," ++ (match key with | some k => dType k | none => "nil") ++ "," ++ dType elem ++ ")"
+  | .tuple n elems => "T(" ++ dNative n ++ ",[" ++ commas (elems.map dType) ++ "])"
+  | .udt n ks name fields =>
+    "U(" ++ dNative n ++ "," ++ toHex ks ++ "," ++ toHex name ++ ",[" ++
+      commas (fields.map (fun f => toHex f.1 ++ ":" ++ dType f.2)) ++ "])"
+
+def dMeta (m : ResultMeta) : String :=
+  "M(" ++ toString m.flags ++ "," ++ hexO m.pagingState ++ ",[" ++
+    commas (m.columns.map (fun c => toHex c.keyspace ++ "." ++ toHex c.table ++ "." ++ toHex c.name ++ ":" ++ dType c.typ)) ++
+    "]," ++ toString m.colCount ++ "," ++ toString m.actualColCount ++ ")"
+
+def dErrMap : Option (List (FrameRead.Bytes × Nat)) → String
+  | none => "nil"
+  | some m => "{" ++ commas (sortStrings (m.map (fun kc => toHex kc.1 ++ "=" ++ toString kc.2))) ++ "}"
+
+def dErr : ErrDetail → String
+  | .plain => "plain"
+  | .unavailable cl a b => s!"unav({cl},{a},{b})"
+  | .writeTimeout cl a b w => s!"wto({cl},{a},{b},{toHex w})"
+  | .readTimeout cl a b d => s!"rto({cl},{a},{b},{d.toNat})"
+  | .alreadyExists ks tb => s!"ae({toHex ks},{toHex tb})"
+  | .unprepared id => s!"unp({toHex id})"
+  | .readFailure cl a b n d m => s!"rf({cl},{a},{b},{n},{d},{dErrMap m})"
+  | .writeFailure cl a b n w m => s!"wf({cl},{a},{b},{n},{toHex w},{dErrMap m})"
+  | .functionFailure ks fn args => s!"ff({toHex ks},{toHex fn},{strList args})"
+  | .cdcWriteFailure => "cdc"
+  | .casWriteUnknown cl a b => s!"cas({cl},{a},{b})"
+
+def dPk : Option (List Nat) → String
+  | none => "nil"
+  | some l => "[" ++ commas (l.map toString) ++ "]"
+
+def dFrame : Frame → String
+  | .error code msg d => s!"ERR({code},{toHex msg},{dErr d})"
+  | .ready => "READY"
+  | .supported m => "SUP{" ++ commas (sortStrings (m.map (fun kv => toHex kv.1 ++ "=" ++ strList kv.2))) ++ "}"
+  | .authenticate c => s!"AUTH({toHex c})"
+  | .authChallenge d => s!"CHAL({hexO d})"
+  | .authSuccess d => s!"SUCC({hexO d})"
+  | .resultVoid => "VOID"
+  | .resultRows md n => s!"ROWS({dMeta md},{n})"
+  | .resultKeyspace ks => s!"KS({toHex ks})"
+  | .resultPrepared id req resp =>
+    s!"PREP({toHex id},PM({dMeta req.md},{dPk req.pkeyColumns},{toHex req.keyspace},{toHex req.table}),{dMeta resp})"
+  | .schemaKeyspace ch ks => s!"SCK({toHex ch},{toHex ks})"
+  | .schemaTable ch ks o => s!"SCT({toHex ch},{toHex ks},{toHex o})"
+  | .schemaType ch ks o => s!"SCU({toHex ch},{toHex ks},{toHex o})"
+  | .schemaFunction ch ks n a => s!"SCF({toHex ch},{toHex ks},{toHex n},{strList a})"
+  | .schemaAggregate ch ks n a => s!"SCA({toHex ch},{toHex ks},{toHex n},{strList a})"
+  | .topologyChange ch h p => s!"TOPO({toHex ch},{toHex h},{p})"
+  | .statusChange ch h p => s!"STAT({toHex ch},{toHex h},{p})"
+
+def dPayload : Option (List (FrameRead.Bytes × Option FrameRead.Bytes)) → String
+  | none => "nil"
+  | some m => "{" ++ commas (sortStrings (m.map (fun kv => toHex kv.1 ++ "=" ++ hexO kv.2))) ++ "}"
+
+def dWarnings : Option (List FrameRead.Bytes) → String
+  | none => "nil"
+  | some l => strList l
+
+def dOutcome (h : Header) : Outcome (Resp × FrameRead.Bytes) → String
+  | .err => "err"
+  | .crash => "crash:go"
+  | .ok (r, rest) =>
+    s!"ok S:{h.stream},{h.op.toNat} T:{hexO r.traceId} W:{dWarnings r.warnings} P:{dPayload r.payload} " ++
+    s!"H:{if r.frame.headerCopied then 1 else 0} F:{dFrame r.frame} R:{toHex rest}"
+
+/-! ## the receive path on wire bytes: readHeader + readFrame (Model/Compress.lean, C18), parseFrame -/
+
+def recvModel (fv : Nat) (wire : FrameRead.Bytes) : Option (Header × FrameRead.Bytes) :=
+  let f := Compress.newFramer none (UInt8.ofNat fv)
+  match f.decode wire with
+  | .ok (h, body) =>
+    -- the harness's hook refuses trailing bytes after the frame
+    let hs := if (h.version &&& 0x7f) < 3 then 8 else 9
+    if wire.length != hs + body.length then none
+    else some ({ version := h.version, flags := h.flags, stream := h.stream, op := h.op, length := h.length }, body)
+  | .error _ => none
+
+def onWire (fv : Nat) (wire : FrameRead.Bytes) : String :=
+  match recvModel fv wire with
+  | none => "err"
+  | some (h, body) => dOutcome h (parseResp fv h body)
+
+/-! ## rows through the consumer APIs -/
+
+open Rows in
+def dCalls (cs : List Call) : String :=
+  ";".intercalate (cs.map (fun c => s!"{c.dest}={dType c.typ}:{hexO c.data}"))
+
+def widthsOf (cols : List ColumnInfo) : Nat :=
+  (cols.map (fun c => match c.typ with | .tuple _ es => es.length | _ => 1)).sum
+
+def destsOf (pat : String) (cols : List ColumnInfo) : List Bool :=
+  if pat == "A" then List.replicate (widthsOf cols) true
+  else pat.toList.map (· == '1')
+
+open Rows in
+def iterEnd (it : Iter) : String :=
+  if it.failed then s!"end:1,{it.pos},x" else s!"end:0,{it.pos},{toHex it.buf}"
+
+open Rows in
+def scanLoop (dests : List Bool) : Nat → Iter → List String → Option (List String × Iter)
+  | 0, it, acc => some (acc, it)
+  | fuel + 1, it, acc =>
+    match scan it dests with
+    | .row it' calls => scanLoop dests fuel it' (acc ++ [dCalls calls])
+    | .stop it' calls => some (if calls.isEmpty then acc else acc ++ ["!" ++ dCalls calls], it')
+    | .crash => none
+
+open Rows in
+def scannerLoop (dests : List Bool) : Nat → Scanner → List String → Option (List String × String × Scanner)
+  | 0, s, acc => some (acc, "done", s)
+  | fuel + 1, s, acc =>
+    match s.next with
+    | .crash => none
+    | .err => none
+    | .ok (s', false) => some (acc, "done", s')
+    | .ok (s', true) =>
+      match s'.scan dests with
+      | .ok s'' calls => scannerLoop dests fuel s'' (acc ++ [dCalls calls])
+      | .error s'' calls => some (acc ++ ["!" ++ dCalls calls], "scanerr", s'')
+      | .crash => none
+
+def dMap (m : List (FrameRead.Bytes × String)) : String :=
+  "{" ++ commas (sortStrings (m.map (fun kv => toHex kv.1 ++ "=" ++ kv.2))) ++ "}"
+
+open Rows in
+def mapScanLoop : Nat → Iter → List String → Option (List String × Iter)
+  | 0, it, acc => some (acc, it)
+  | fuel + 1, it, acc =>
+    match mapScan it with
+    | .row it' m => mapScanLoop fuel it' (acc ++ [dMap (m.map (fun kv => (kv.1, hexO kv.2)))])
+    | .stop it' => some (acc, it')
+    | .crash => none
+
+open Rows in
+def rowsModel (api pat : String) (fv : Nat) (wire : FrameRead.Bytes) : String :=
+  match recvModel fv wire with
+  | none => "err"
+  | some (h, body) =>
+    match parseResp fv h body with
+    | .err => "err"
+    | .crash => "crash:go"
+    | .ok (r, rest) =>
+      match r.frame with
+      | .resultRows md n =>
+        let it := iterOf md n rest
+        let dests := destsOf pat md.columns
+        let fuel := n.toNat + 1
+        let out := "ok M:" ++ dMeta md
+        match api with
+        | "scan" =>
+          match scanLoop dests fuel it [] with
+          | none => "crash:go"
+          | some (rows, it') => out ++ " rows:[" ++ "|".intercalate rows ++ "] " ++ iterEnd it'
+        | "scanner" =>
+          match scannerLoop dests (fuel + 1) it.scanner [] with
+          | none => "crash:go"
+          | some (rows, status, s) =>
+            out ++ " rows:[" ++ "|".intercalate rows ++ "] " ++ status ++ " err:" ++ (if s.it.failed then "1" else "0")
+        | "mapscan" =>
+          match mapScanLoop fuel it [] with
+          | none => "crash:go"
+          | some (rows, it') => out ++ " rows:[" ++ "|".intercalate rows ++ "] " ++ iterEnd it'
+        | "slicemap" =>
+          match sliceMap it with
+          | .crash => "crash:go"
+          | .error _ => out ++ " err"
+          | .rows ms it' =>
+            out ++ " rows:[" ++ "|".intercalate (ms.map (fun m => dMap (m.map (fun kv => (kv.1, toHex kv.2))))) ++ "] " ++ iterEnd it'
+        | _ => "bad-op"
+      | _ => "err"
+
+/-! ## the specification's expectation of the cells (independent of the Rows model) -/
+
+/-- the destinations a row fills, in order: (type, data) per destination; a tuple column expands to
+    one destination per element, a null tuple fills every element with null -/
+def expectRow : List TypeDesc → List Cell → Option (List (TypeInfo × Option FrameRead.Bytes))
+  | [], [] => some []
+  | t :: ts, c :: cs =>
+    match expectRow ts cs with
+    | none => none
+    | some rest =>
+      match t, c with
+      | .tuple es, .null => some ((viewTypes es).map (fun e => (e, none)) ++ rest)
+      | .tuple es, .tuple fs => if fs.length == es.length then some ((viewTypes es).zip fs ++ rest) else none
+      | .tuple _, .bytes _ => none
+      | t, .null => some ((viewType t, none) :: rest)
+      | t, .bytes b => some ((viewType t, some b) :: rest)
+      | _, .tuple _ => none
+  | _, _ => none
+
+def dExpectScan (row : List (TypeInfo × Option FrameRead.Bytes)) : String :=
+  ";".intercalate ((List.range row.length).zip row |>.map (fun jx => s!"{jx.1}={dType jx.2.1}:{hexO jx.2.2}"))
+
+/-- expected answer of a `rows` op from the logical response alone -/
+def rowsSpec (api : String) (v : Nat) (r : LResp) : Option String :=
+  match r.body with
+  | .result (.rows m rs) =>
+    let types := colTypes m.cols
+    match rs.mapM (expectRow types) with
+    | none => none
+    | some rows =>
+      let md := viewMeta m
+      let out := "ok M:" ++ dMeta md
+      let fin := s!"end:0,{rs.length},-"
+      match api with
+      | "scan" => some (out ++ " rows:[" ++ "|".intercalate (rows.map dExpectScan) ++ "] " ++ fin)
+      | "scanner" => some (out ++ " rows:[" ++ "|".intercalate (rows.map dExpectScan) ++ "] done err:0")
+      | "mapscan" =>
+        -- RowData's names by the specification (Model/RowDataSpec.lean); a column without a Go type
+        -- (C04_no_go_type_is_error): false + error when there is a row, a normal end otherwise
+        match rowDataSpec m.cols with
+        | some names =>
+          some (out ++ " rows:[" ++ "|".intercalate (rows.map (fun row => dMap (names.zip (row.map (fun x => hexO x.2))))) ++ "] " ++ fin)
+        | none => some (out ++ " rows:[] " ++ (if rs.isEmpty then fin else "end:1,0,x"))
+      | "slicemap" =>
+        match rowDataSpec m.cols with
+        | some names =>
+          some (out ++ " rows:[" ++ "|".intercalate (rows.map (fun row => dMap (names.zip (row.map (fun x => toHex (x.2.getD [])))))) ++ "] " ++ fin)
+        | none => some (if rs.isEmpty then out ++ " rows:[] " ++ fin else out ++ " err")
+      | _ => none
+  | _ => none
+
+/-! ## skip-metadata end to end: PREPARED response, then a page; conn.go executeQuery's iterator -/
+
+open Rows in
+def skipModel (fv : Nat) (wire1 wire2 : FrameRead.Bytes) : String :=
+  match recvModel fv wire1, recvModel fv wire2 with
+  | some (h1, b1), some (h2, b2) =>
+    match parseResp fv h1 b1, parseResp fv h2 b2 with
+    | .ok (r1, _), .ok (r2, rest) =>
+      match r1.frame, r2.frame with
+      | .resultPrepared _ _ resp, .resultRows x n =>
+        match iterMeta true (some resp) x with
+        | none => "err"
+        | some md =>
+          let it := iterOf md n rest
+          let dests := List.replicate (widthsOf md.columns) true
+          match scanLoop dests (n.toNat + 1) it [] with
+          | none => "crash:go"
+          | some (rows, it') =>
+            "ok M:" ++ dMeta md ++ " W:" ++ dWarnings r2.warnings ++ " rows:[" ++ "|".intercalate rows ++ "] " ++ iterEnd it'
+      | _, _ => "err"
+    | _, _ => "err"
+  | _, _ => "err"
+
+/-- the specification's expectation when the driver asked to skip the metadata: a NO_METADATA page
+    is read with the prepared statement's result metadata `mp` (and the page's paging state), a page
+    that carries metadata anyway with its own (C04_skip_metadata) -/
+def skipSpec (prep page : LResp) : Option String :=
+  match prep.body, page.body with
+  | .result (.prepared _ _ _ (some mp)), .result (.rows pm rs) =>
+    match pm.cols with
+    | .omitted _ _ =>
+      match rs.mapM (expectRow (colTypes mp.cols)) with
+      | none => none
+      | some rows =>
+        let md := { viewMeta mp with pagingState := some (pm.paging.getD []) }
+        some ("ok M:" ++ dMeta md ++ " W:" ++ dWarnings page.warnings ++ " rows:[" ++ "|".intercalate (rows.map dExpectScan) ++
+          "] " ++ s!"end:0,{rs.length},-")
+    | cols =>
+      match rs.mapM (expectRow (colTypes cols)) with
+      | none => none
+      | some rows =>
+        some ("ok M:" ++ dMeta (viewMeta pm) ++ " W:" ++ dWarnings page.warnings ++ " rows:[" ++
+          "|".intercalate (rows.map dExpectScan) ++ "] " ++ s!"end:0,{rs.length},-")
+  | _, _ => none
+
+def tSkip : TP (Nat × LResp × FrameRead.Bytes × Nat × LResp × FrameRead.Bytes) := do
+  let (v1, r1) ← tResp
+  let w1 ← tHex
+  let sep ← tok
+  if sep != "ROWSRESP" then failure
+  let (v2, r2) ← tResp
+  let w2 ← tHex
+  pure (v1, r1, w1, v2, r2, w2)
+
+/-! ## ops -/
+
+def parseLogical (ws : List String) : Option (Nat × LResp × FrameRead.Bytes) :=
+  match tResp.run ws with
+  | some ((v, r), [w]) => match parseHex w with
+    | some wire => some (v, r, wire)
+    | none => none
+  | _ => none
+
+/-- spec-backed response op: the answer is the model's parse of the SPECIFICATION's encoding -/
+def respSpec (fv : Nat) (ws : List String) : String :=
+  match parseLogical ws with
+  | none => "bad-op"
+  | some (v, r, wire) =>
+    if fv != v then "bad-op: framer version must equal the response version"
+    else if !(wf v r) then "not-wf"
+    else if encodeFrame v r != wire then "spec-encoder-mismatch " ++ toHex (encodeFrame v r)
+    else dOutcome (hdr v r) (parseResp fv (hdr v r) (encodeBody v r))
+
+def step (_ : Unit) (ws : List String) : Unit × String :=
+  ((), match ws with
+  | "resp" :: fv :: rest => (match fv.toNat? with | some fv => respSpec fv rest | none => "bad-op")
+  | "comp" :: fv :: rest => (match fv.toNat? with | some fv => respSpec fv rest | none => "bad-op")
+  | "respx" :: fv :: rest =>
+    (match fv.toNat?, rest.getLast?.bind parseHex with
+     | some fv, some wire => onWire fv wire
+     | _, _ => "bad-op")
+  | ["raw", fv, ver, fl, op, stream, body] =>
+    (match fv.toNat?, ver.toNat?, fl.toNat?, op.toNat?, stream.toInt?, parseHex body with
+     | some fv, some ver, some fl, some op, some stream, some body =>
+       let h : Header := { version := UInt8.ofNat ver, flags := UInt8.ofNat fl, stream := stream, op := UInt8.ofNat op, length := body.length }
+       dOutcome h (parseResp fv h body)
+     | _, _, _, _, _, _ => "bad-op")
+  | "rowsx" :: api :: pat :: fv :: rest =>
+    (match fv.toNat?, rest.getLast?.bind parseHex with
+     | some fv, some wire => rowsModel api pat fv wire
+     | _, _ => "bad-op")
+  | "rows" :: api :: pat :: fv :: rest =>
+    (match fv.toNat?, parseLogical rest with
+     | some fv, some (v, r, wire) =>
+       if fv != v || pat != "A" then "bad-op"
+       else if !(wf v r) then "not-wf"
+       else if encodeFrame v r != wire then "spec-encoder-mismatch " ++ toHex (encodeFrame v r)
+       else
+         let m := rowsModel api pat fv wire
+         match rowsSpec api v r with
+         | none => "not-wf-rows"
+         | some s => if s == m then m else "MODEL-SPEC-MISMATCH model=" ++ m ++ " spec=" ++ s
+     | _, _ => "bad-op")
+  | "skipx" :: fv :: rest =>
+    (match fv.toNat?, tSkip.run rest with
+     | some fv, some ((_, _, w1, _, _, w2), []) => skipModel fv w1 w2
+     | _, _ => "bad-op")
+  | "skip" :: fv :: rest =>
+    (match fv.toNat?, tSkip.run rest with
+     | some fv, some ((v1, r1, w1, v2, r2, w2), []) =>
+       if fv != v1 || fv != v2 then "bad-op"
+       else if !(wf v1 r1 && wf v2 r2) then "not-wf"
+       else if encodeFrame v1 r1 != w1 || encodeFrame v2 r2 != w2 then "spec-encoder-mismatch"
+       else
+         let m := skipModel fv w1 w2
+         match skipSpec r1 r2 with
+         | none => "not-wf-skip"
+         | some s => if s == m then m else "MODEL-SPEC-MISMATCH model=" ++ m ++ " spec=" ++ s
+     | _, _ => "bad-op")
+  | _ => "bad-op")
+
 def init : Unit := ()
 end Driver.C04
